@@ -1,6 +1,7 @@
 """C02 — content validation decides exactly as the rule's content constraints require."""
 from hypothesis import strategies as st
 from metapype.eml import rule as R
+from vf.shipped import RULES
 from metapype.eml.validation_errors import ValidationError as VE
 from metapype.model.node import Node
 
@@ -34,7 +35,7 @@ _desc = {}
 def desc(rn):
     d = _desc.get(rn)
     if d is None:
-        d = _desc[rn] = contentgen.describe(R.rules_dict[rn][2])
+        d = _desc[rn] = contentgen.describe(RULES[rn][2])
     return d
 
 
@@ -50,8 +51,8 @@ def words_for(rn):
 
 def _words_for(rn):
     """child words to test with: the shortest valid one, and for rules with children a non-empty valid one"""
-    spec, alpha, mixed, dfa = lang.rule_lang(R.rules_dict, rn)
-    w0 = lang.shortest_specified(R.rules_dict, rn) or ()
+    spec, alpha, mixed, dfa = lang.rule_lang(RULES, rn)
+    w0 = lang.shortest_specified(RULES, rn) or ()
     out = [tuple(w0)]
     if not w0 and len(alpha) > 1:
         for a in alpha[:-1]:
@@ -79,6 +80,8 @@ def verdict(rn, content, has_children, typed_verdict=None):
             vs.append("U")
         else:
             vs.append(typed_verdict)
+    if d["str"] and content is not None and any(0xD800 <= ord(ch) <= 0xDFFF for ch in content):
+        vs.append("U")   # text that cannot be encoded: the statement lists no string constraint; the library refuses it
     if "R" in vs:
         return "R"
     if all(v == "A" for v in vs):
@@ -116,12 +119,32 @@ def check_case(rn, content, word, v, label=""):
                         f"{[e[0].name for e in cc[1]] if cc[1] else 'no errors'}", case)
 
 
+def check_content_next_to_invalid_child(rn, content):
+    """the content decision does not depend on what else is wrong with the node: under a rule that is not a
+    mixed-content rule, empty content is a content error whether or not the node (wrongly) carries a child - only
+    mixed-content rules let child elements stand in for text"""
+    case = {"rule": rn, "content": content, "foreign_child": True}
+    Node.store.clear()
+    word = tuple(words_for(rn)[0]) + (lang.FOREIGN,)
+    n = build.make_node(rn, word=word, content=content)
+    errs = []
+    try:
+        build.validate_under(rn, n, errs)
+    except Exception as e:  # noqa
+        raise Violation("collecting-raised:" + type(e).__name__, f"with an unexpected child: {type(e).__name__}: {str(e)[:150]}", case)
+    codes = [e[0].name for e in errs if isinstance(e, tuple) and e and isinstance(e[0], VE)]
+    if not any(c in CONTENT_CODES for c in codes):
+        raise Violation("content-error-masked-by-child-error",
+                        f"empty content ({content!r}) under a non-mixed non-empty rule next to a child the rule does not allow: "
+                        f"collected {codes}, no content error among them", case)
+
+
 def typed_rules():
-    return [rn for rn in sorted(R.rules_dict) if desc(rn)["typed"]]
+    return [rn for rn in sorted(RULES) if desc(rn)["typed"]]
 
 
 def plain_rules():
-    return [rn for rn in sorted(R.rules_dict) if not desc(rn)["typed"]]
+    return [rn for rn in sorted(RULES) if not desc(rn)["typed"]]
 
 
 def exact_task(ctx, rns):
@@ -137,12 +160,18 @@ def exact_task(ctx, rns):
                     cases.append((label, s, verdict(rn, s, has_children, tv)))
                 cases.append((kind + "-none", None, verdict(rn, None, has_children)))
             else:
-                pool = [None, "", " ", "\t\n", "\xa0", "x", "text", " x ", "0", "None", "\x00", "é", "a\nb"]
+                pool = [None, "", " ", "\t\n", "\xa0", "x", "text", " x ", "0", "None", "\x00", "é", "a\nb", "\ud800", "x\udfff"]
                 if d["enum"] is not None:
                     for v in d["enum"]:
                         pool += [v, v.upper(), v + " ", " " + v, v + "x", v[:-1]]
                 for s in pool:
                     cases.append(("plain-exact", s, verdict(rn, s, has_children)))
+            if d["nonempty"] and rn not in lang.MIXED and word == words_for(rn)[0]:
+                for s in (None, ""):
+                    n += 1
+                    nt += 1
+                    ctx.count("empty-content-next-to-unexpected-child")
+                    ctx.guard(check_content_next_to_invalid_child, rn, s)
             for label, s, v in cases:
                 n += 1
                 nontriv = v != "U" and (s is not None or d["nonempty"])
@@ -253,7 +282,7 @@ def cross_shard(ctx, shard):
 
 
 def run(ctx):
-    names = sorted(R.rules_dict)
+    names = sorted(RULES)
     ctx.pmap(exact_task, [names[i::16] for i in range(16)])
     ctx.pmap(hyp_shard, range(16))
     ctx.pmap(cross_shard, range(16))
@@ -261,10 +290,18 @@ def run(ctx):
 
 def replay(case):
     Node.store.clear()
+    if case.get("foreign_child"):
+        if case["rule"] not in RULES:
+            return None
+        try:
+            check_content_next_to_invalid_child(case["rule"], case["content"])
+        except Violation as v:
+            return f"{v.bucket}: {v.message}"
+        return None
     if "sequence" in case:
         try:
             for rn in case["sequence"]:
-                if rn not in R.rules_dict:
+                if rn not in RULES:
                     return None
                 kind = desc(rn)["typed"][0]
                 word = words_for(rn)[0]
@@ -274,7 +311,7 @@ def replay(case):
             return f"{v.bucket}: {v.message}"
         return None
     rn = case["rule"]
-    if rn not in R.rules_dict:
+    if rn not in RULES:
         return None
     try:
         check_case(rn, case["content"], tuple(case.get("word", ())), case["verdict"], case.get("label", ""))
